@@ -173,7 +173,7 @@ func decode(b []byte, off int, depth int) (Value, int, Status_, string) {
 		if l == -1 {
 			return Value{K: '$', Null: true}, next, Complete, ""
 		}
-		if int64(len(b)-next) < l+2 {
+		if int64(len(b)-next)-2 < l {
 			// what is there must not already contradict the framing
 			if int64(len(b)-next) > l {
 				if b[next+int(l)] != '\r' {
